@@ -59,6 +59,12 @@ def alias_of(r, depth=0):
         ix = at.args[1]
         comps = ix if isinstance(ix, tuple) and not (ix and ix[0] == "slice") else (ix,)
         advanced = any(isinstance(c, Rat) and c.const_value() is None and not _is_scalar_index(c) for c in comps)
+        inner = at.args[0].as_atom() if isinstance(at.args[0], Rat) else None
+        if inner is not None and inner.func == "pylist" and inner.args and isinstance(inner.args[0], tuple):
+            # element of a python list of arrays: the element itself (worst case over the elements)
+            els = [alias_of(x, depth + 1) for x in inner.args[0] if isinstance(x, Rat)]
+            worst = [e for e in els if e != "fresh"]
+            return worst[0] if worst else "fresh"
         if base in ("fresh",):
             return "fresh"
         if isinstance(at.args[0], tuple):
@@ -86,7 +92,48 @@ def alias_of(r, depth=0):
         return "unknown"
     if f == "pylist":
         return "fresh"
+    if f.startswith("self.") and _PROG is not None and f.count(".") == 1:
+        return _summary_alias(f[5:], at.args, depth)
     return "unknown"
+
+
+_PROG = None
+_SUMMARIES = {}
+
+
+def _summary_alias(method, args, depth):
+    """Alias class of the value returned by the helper method Data.<method>: the worst case over its return values, with the
+    helper's parameters replaced by the alias classes of the actual arguments (one level of summaries, recursion bounded by depth)."""
+    hit = _PROG.lookup_method(_PROG.cls("verif.data.Data"), method)
+    if hit is None:
+        return "unknown"
+    fdef = hit[1]
+    if method not in _SUMMARIES:
+        _SUMMARIES[method] = None
+        try:
+            ev = symeval.Evaluator(hit[0].module)
+            ev.loop_mode = "unroll2"
+            ev.merge_ifs = True
+            outs = ev.run(fdef)
+            _SUMMARIES[method] = [o.value for o in outs if o.kind == "return"]
+        except (symeval.Undecided, AnalysisError):
+            _SUMMARIES[method] = None
+    vals = _SUMMARIES[method]
+    if not vals:
+        return "unknown"
+    params = [a.arg for a in fdef.args.args if a.arg != "self"]
+    worst = "fresh"
+    for v in vals:
+        al = alias_of(v, depth + 5) if isinstance(v, Rat) else "unknown"
+        if al.startswith("param:"):
+            name = al[6:]
+            if name in params and params.index(name) < len(args) and isinstance(args[params.index(name)], Rat):
+                al = alias_of(args[params.index(name)], depth + 5)
+            else:
+                al = "unknown"
+        if al != "fresh":
+            worst = al
+    return worst
 
 
 def _is_scalar_index(c):
@@ -115,9 +162,11 @@ def check_data_writes(ctx):
     prog = ctx.prog
     m = prog.module("verif.data")
     n = 0
+    n_fill = 0
     consts = {"self._obs_range", "self._remove_missing_across_all", "field", "self._obs_field", "self._fcst_field", "input_index"}
     for site in ("verif.data.Data.get_scores", "verif.data.Data._get_score"):
         ev = trace.trace(prog, site)
+        replaced = {}
         for e in ev.events:
             if e["kind"] == "store":
                 root = e["root"]
@@ -125,18 +174,43 @@ def check_data_writes(ctx):
                 # the array written into: root value indexed by all but the last index
                 if root == "self._get_score_cache":
                     if len(e["indices"]) < 3:
-                        continue            # cache[i][field] = array  (filling a slot, not an in-place array write)
+                        # cache[i][field] = array: filling a slot.  The entries are later written in place (missing-in-any-input mask,
+                        # -obsrange), so a slot must hold a new array or another slot's array, never the input object's own data
+                        if len(e["indices"]) == 2 and isinstance(e["value"], Rat):
+                            al = alias_of(e["value"])
+                            n_fill += 1
+                            ctx.ob("C18.1", site, al in ("fresh", "cache"), "a cache slot is filled with a new array (or another slot), not with the input's own array",
+                                   loc=prog.loc(m, e["node"]),
+                                   msg="the array stored in the cache can be %s (alias class %s): the in-place masking of cache entries then modifies the "
+                                       "input object's data, and re-using that input gives different results"
+                                       % (str(e["value"])[:90], al), sample={"rule": "C18.1", "site": site, "fill": al})
+                        continue
                     target_alias = "cache"
                     mask = e["indices"][-1]
                 elif root == "self._get_scores_cache":
                     continue
                 else:
+                    ck = [(c.key() if isinstance(c, Rat) else str(c), pol) for c, pol in e["conds"]]
+                    if len(e["indices"]) == 1 and isinstance(old, list):
+                        # whole-element replacement in a python list of arrays: remembered for the in-place writes that follow
+                        ixk = e["indices"][0].key() if isinstance(e["indices"][0], Rat) else str(e["indices"][0])
+                        replaced[(root, ixk)] = (alias_of(e["value"]) if isinstance(e["value"], Rat) else "unknown", ck)
+                        continue
                     base = old
                     for ix in e["indices"][:-1]:
                         base = form.apply("getitem", [base if isinstance(base, Rat) else form.apply("pylist", [tuple(base)]), ix if isinstance(ix, (Rat, tuple)) else (ix,)])
                     if isinstance(base, list):
                         continue
                     target_alias = alias_of(base)
+                    if len(e["indices"]) == 2 and isinstance(old, list):
+                        ixk = e["indices"][0].key() if isinstance(e["indices"][0], Rat) else str(e["indices"][0])
+                        rep = replaced.get((root, ixk))
+                        if rep is not None:
+                            always = all(c in ck for c in rep[1])        # the replacement happened on every path that reaches this write
+                            if always:
+                                target_alias = rep[0]
+                            elif target_alias == "fresh":
+                                target_alias = rep[0]
                     mask = e["indices"][-1]
                 n += 1
                 if target_alias in ("fresh",):
@@ -162,6 +236,7 @@ def check_data_writes(ctx):
                        msg="`%s` modifies %s in place, which can be the cached array itself (alias of %s): the cache is changed by a request "
                            "and every later request sees the modified data" % (norm(e["node"]), e["name"], al))
     ctx.need(n >= 4, "fewer than 4 in-place writes examined in the query path")
+    ctx.need(n_fill >= 3, "fewer than 3 cache fills examined in _get_score (%d)" % n_fill)
     # returned values: whole-array results must not be the cached arrays when they were modified; the memo stores the final list
     ctx.floor("C18.1", 4)
 
@@ -287,6 +362,22 @@ def check_memo_key(ctx):
     last_store = max(i for i, e in enumerate(ev.events) if e["kind"] == "store" and e["root"] == "scores") if any(e["kind"] == "store" and e["root"] == "scores" for e in ev.events) else -1
     memo_pos = max(i for i, e in enumerate(ev.events) if e["kind"] == "store" and e["root"] == "self._get_scores_cache")
     ctx.ob("C18.3", site, memo_pos > last_store, "the result is memoised after its last modification", msg="the result list is modified after being cached")
+    # the memoised object is the one returned on the miss path: a later request must get what the first one got
+    memo_node = ev.events[memo_pos]["node"]
+    stored_name = dotted(memo_node.value) if isinstance(memo_node, ast.Assign) else None
+    ctx.need(stored_name is not None, "%s: the memoised value is not a plain name" % site)
+    rebinds = [n_ for n_ in ast.walk(f) if isinstance(n_, (ast.Assign, ast.AugAssign)) and n_.lineno > memo_node.lineno
+               and any(dotted(t) == stored_name or (isinstance(t, ast.Subscript) and dotted(t.value) == stored_name)
+                       for t in (n_.targets if isinstance(n_, ast.Assign) else [n_.target]))]
+    ctx.ob("C18.3", site, not rebinds, "the result name is not rebound or written after being memoised (first and later requests get the same arrays)",
+           loc=prog.loc(m, rebinds[0]) if rebinds else prog.loc(m, memo_node),
+           msg="%s is %s after it was stored in the request cache (line %d): the first request returns one result (e.g. the NaN placeholder of an empty "
+               "slice) and every later identical request another (the cached one)" % (stored_name, "rebound/modified", memo_node.lineno))
+    rets = [n_ for n_ in ast.walk(f) if isinstance(n_, ast.Return) and n_.lineno > memo_node.lineno and n_.value is not None]
+    bad = [r for r in rets if not (dotted(r.value) == stored_name or (isinstance(r.value, ast.Subscript) and dotted(r.value.value) == stored_name
+                                                                       and const(r.value.slice) == 0))]
+    ctx.ob("C18.3", site, rets and not bad, "the miss path returns the memoised list (or its element 0 for a single field)",
+           loc=prog.loc(m, bad[0]) if bad else None, msg="the miss path returns %s, not the memoised %s" % (norm(bad[0].value)[:60] if bad else "nothing", stored_name))
     # classes used inside keys
     fm = prog.module("verif.field")
     for c in fm.classes.values():
@@ -314,6 +405,46 @@ def check_memo_key(ctx):
         bc = prog.cls(modname + "." + base)
         ctx.ob("C18.3", bc.qual, "__eq__" in bc.methods and "__hash__" in bc.methods, "%s defines __eq__ and __hash__" % bc.name,
                msg="%s lost __eq__/__hash__" % bc.qual)
+
+
+def check_other_memos(ctx):
+    """Every dictionary attribute of Data that is filled outside __init__ is a memo: its key must be built from the parameter values
+    themselves (no hash()/id()/str() digest, whose collisions silently merge different requests) and contain every parameter the
+    function has."""
+    prog = ctx.prog
+    c = prog.cls("verif.data.Data")
+    m = c.module
+    dicts = set()
+    for n_ in ast.walk(c.methods["__init__"]):
+        if isinstance(n_, ast.Assign) and isinstance(n_.value, ast.Call) and dotted(n_.value.func) == "dict":
+            for t in n_.targets:
+                if (dotted(t) or "").startswith("self."):
+                    dicts.add(dotted(t))
+    ctx.need("self._get_scores_cache" in dicts, "Data.__init__: dictionary caches not found")
+    for name, f in c.methods.items():
+        if name == "__init__":
+            continue
+        params = [a.arg for a in f.args.args if a.arg != "self"]
+        for n_ in ast.walk(f):
+            if not (isinstance(n_, ast.Assign) and len(n_.targets) == 1 and isinstance(n_.targets[0], ast.Subscript)):
+                continue
+            t = n_.targets[0]
+            if dotted(t.value) not in dicts:
+                continue
+            keyexpr = t.slice
+            if isinstance(keyexpr, ast.Name):
+                defs = [a for a in ast.walk(f) if isinstance(a, ast.Assign) and any(dotted(x) == keyexpr.id for x in a.targets)]
+                if len(defs) == 1:
+                    keyexpr = defs[0].value
+            digest = [k for k in ast.walk(keyexpr) if isinstance(k, ast.Call) and dotted(k.func) in ("hash", "id", "str", "repr")]
+            names = {x.id for x in ast.walk(keyexpr) if isinstance(x, ast.Name)}
+            missing = [p_ for p_ in params if p_ not in names]
+            site = c.qual + "." + name
+            ctx.ob("C18.3", site, not digest, "memo %s is keyed by the parameter values, not by a digest" % dotted(t.value), loc=prog.loc(m, n_),
+                   msg="the key of %s is %s: a hash()/id()/str() digest; objects whose __hash__ coincide (every verif.axis class hashes alike) "
+                       "share one entry, so the answer depends on which request came first" % (dotted(t.value), norm(keyexpr)[:60]))
+            ctx.ob("C18.3", site, not missing, "memo %s: the key contains every parameter of %s" % (dotted(t.value), name), loc=prog.loc(m, n_),
+                   msg="the key of %s (%s) lacks parameter(s) %s of %s" % (dotted(t.value), norm(keyexpr)[:60], missing, name))
 
 
 def check_determinism(ctx):
@@ -350,6 +481,9 @@ def check_ownership(ctx):
 
 
 def run(ctx):
+    global _PROG
+    _PROG = ctx.prog
+    _SUMMARIES.clear()
     ctx.rule("C18.1", "no request-dependent in-place write into shared storage; no in-place mutation of array parameters")
     ctx.rule("C18.2", "callers never write into arrays returned by get_scores/get_p/get_q")
     ctx.rule("C18.3", "memo key complete; classes inside keys define __eq__/__hash__ over their parameters")
@@ -359,6 +493,7 @@ def run(ctx):
     check_param_mutation(ctx)
     check_callers(ctx)
     check_memo_key(ctx)
+    check_other_memos(ctx)
     check_determinism(ctx)
     check_ownership(ctx)
     # controls of the alias domain
